@@ -179,6 +179,11 @@ namespace sim
       log_event( Ev::FAULT, 0, 0, 0, 0, sn, 0, ( std::uint64_t( s ) << 8 ) | cls, id );
    }
 
+   const char* g_buf_base() noexcept
+   {
+      return g_buf.base;
+   }
+
    void soft_violation( std::uint32_t what, std::uint64_t value, const Snap& s )
    {
       log_event( Ev::SOFT, 0, 0, 0, 0, s, 0, what, static_cast< std::uint32_t >( value ) );
